@@ -130,9 +130,11 @@ CHECKS.update({
     },
     "C15": {
         "text": "for every program: image -> structure.APIFromImage -> j5schema.PackageSetFromSourceAPI (all refs must link) -> ToJ5Root of every "
-                "schema must be proto.Equal to the exported form; stage outcomes validated by TLC against the Pipeline stage machine",
+                "schema must be proto.Equal to the exported form, for the full image and for every partial image that names one local package only "
+                "(the others become indirect packages); reference graphs over root / service / topic packages come from PackageExport.tla "
+                "(TLC: Closed, ParentListed, OrderIndependent); stage outcomes validated by TLC against the Pipeline stage machine",
         "design_ref": "DESIGN.md 5.9, 6/C15", "note": _PIPE_NOTE,
-        "technique": "TLA+ stage machine + TLC, export / import / re-export replay with structural diff, TLC trace validation",
+        "technique": "TLA+ stage machine and package-closure model (PackageExport) + TLC, export / import / re-export replay of TLC-generated reference graphs and programs with structural diff, TLC trace validation",
     },
     "C16": {
         "text": "for every program (services with every verb, bodiless responses, topics, entities, self- and mutually-recursive and flattened "
